@@ -754,12 +754,12 @@ theorem inv_ssubmit (c : Cfg) (s : State) (hi : Inv c s) {x id : Nat} (hf : Fres
 /-- the invariant is preserved by every step -/
 theorem inv_step (c : Cfg) (s : State) (a : Act) (s' : State) (hi : Inv c s) (hs : Step c s a s') : Inv c s' := by
   cases hs with
-  | submit hf => exact inv_submit c s hi hf
-  | ssubmit hf => exact inv_ssubmit c s hi hf
-  | send hp hc hr => exact inv_send c s hi hp hc hr
-  | srvRecv hc hw => exact inv_srvRecv c s hi hc hw
+  | submit hf _ => exact inv_submit c s hi hf
+  | ssubmit hf _ => exact inv_ssubmit c s hi hf
+  | send hp hc hr _ => exact inv_send c s hi hp hc hr
+  | srvRecv hc hw _ => exact inv_srvRecv c s hi hc hw
   | finish hc ht _ => exact inv_finish c s hi hc ht
-  | respond hc hq _ => exact inv_respond c s hi hc hq
+  | respond hc hq _ _ => exact inv_respond c s hi hc hq
   | recv hc hb hl => exact inv_recv c s hi hc hb hl
   | syield ht hv => exact inv_syield c s hi ht hv
 
